@@ -300,10 +300,10 @@ func c15TColor(c *Ctx, p *Prog) {
 	// First by constant evaluation over the colour counts and a grid of indexes (T18): the calls of
 	// TParm it makes are the behaviour the clause is about.  The symbolic reading below is used when
 	// the function cannot be evaluated.
-	if res := evalTColor(p, fn); res != nil {
+	if res := evalTColor(p, fn, c.Tier == "thorough"); res != nil {
 		for _, key := range sortedKeys(res) {
 			if res[key] == "" {
-				c.OK("C15-R3", key, p.pos(fn.Pos()), "decided by evaluating TColor for 8 colour counts and 56x56 index pairs: the capabilities expanded, their order and their indexes are as stated")
+				c.OK("C15-R3", key, p.pos(fn.Pos()), fmt.Sprintf("decided by evaluating TColor for 8 colour counts and a grid of index pairs (dense up to %d, plus every palette boundary): the capabilities expanded, their order and their indexes are as stated", map[bool]int{false: 40, true: 300}[c.Tier == "thorough"]))
 			} else {
 				c.Fail("C15-R3", key, p.pos(fn.Pos()), res[key])
 			}
